@@ -1,4 +1,4 @@
-(* GenGlobals.v - GENERATED from /tmp/repo-C12 by /verif/translator; do not edit.
+(* GenGlobals.v - GENERATED from /repo by /verif/translator; do not edit.
    source cssutils/parse.py sha1 f5d204e6ad8d
    source cssutils/prodparser.py sha1 7762840bb4e4
    source cssutils/stylesheets/mediaquery.py sha1 ee6f0a4d30d1
